@@ -223,6 +223,10 @@ def job_cell(job):
                         problem = 'frame side %s for size %s gap %s' % (rw_, sz, gp)
                     elif abs(rx_ + rw_ / 2 - model.get('pos_x', 1.0)) > 1e-6:
                         problem = 'frame centre x %s, requested %s' % (rx_ + rw_ / 2, model.get('pos_x'))
+                    elif abs(ry_ + rw_ / 2 - model.get('pos_y', 1.0)) > 1e-6:
+                        problem = 'frame centre y %s, requested %s' % (ry_ + rw_ / 2, model.get('pos_y'))
+                    elif abs((ix_ - rx_) - (rw_ - iw_) / 2) > 0.006 or abs((iy_ - ry_) - (rw_ - iw_) / 2) > 0.006:
+                        problem = 'image is not centred in its frame (offsets x %s y %s, expected %s)' % (ix_ - rx_, iy_ - ry_, (rw_ - iw_) / 2)
                 if problem:
                     confirmed, what = True, '%s: %s (margin %d; rect x=%s y=%s side=%s, image x=%s side=%s)' % (name, problem, mv, rx_, ry_, rw_, ix_, iw_)
         res['failures'].append({'key': 'C18/geometry', 'what': what, 'confirmed': confirmed, 'obligation': lab, 'replay': {'request': req}})
